@@ -842,6 +842,19 @@ def bucket_index(prog, chk, rid, classes=("HashMap", "HashSet", "PoolMap")):
                                 chk.ok(rid, f, "bucket array sized by capacity", f.where(i), sz)
                             else:
                                 chk.bad(rid, f, "bucket-array-size", f.where(i), "bucket array allocated with `%s`, expected sizeof(Item*) * capacity" % sz)
+            # the bucket count is fixed once the bucket array exists: `capacity` is written only by constructors and by swap (which
+            # hands `data` over with it); any other store leaves data[hash % capacity] indexing an array of the old size
+            for f in [f for f in fs if f.cls == tn and f.kind not in ("ctor",) and f.short != "swap"]:
+                for s_, l_, r_ in nstores(f):
+                    if l_ == "this->capacity":
+                        datas = [x_ for x_, l2_, _r2 in nstores(f) if l2_ == "this->data"]
+                        if datas and all(q.reaches(f, s_.node, d_.node) or q.reaches(f, d_.node, s_.node) for d_ in datas) and \
+                           paths_all_pass(f, f.node_pos(s_.node), q.pos_of(f, [d_.node for d_ in datas])):
+                            chk.ok(rid, f, "capacity changed together with the bucket array", f.where(s_.node), "store to data on every path through the store", evals=2)
+                        else:
+                            chk.bad(rid, f, "capacity-changed-without-bucket-array", f.where(s_.node),
+                                    "`%s` changes the bucket count of a table whose bucket array may already be allocated with the old count: "
+                                    "data[hash %% capacity] then indexes past the array (or misses the chains built under the old count)" % f.r(s_.node)[:60])
             # capacity >= 1: constructors either set a positive literal or or-in !capacity
             for f in [f for f in fs if f.kind == "ctor" and f.cls == tn]:
                 init = [x for x in f.d.get("inits", []) if x.get("field") == "capacity"]
@@ -851,6 +864,8 @@ def bucket_index(prog, chk, rid, classes=("HashMap", "HashSet", "PoolMap")):
                 v = f.nodes[f.strip(e)].get("cv")
                 if v is not None and v >= 1:
                     chk.ok(rid, f, "capacity initialised to %d" % v, "%s:%s" % (f.file, f.line), "constant", nontrivial=False)
+                elif re.fullmatch(r"\w+\.capacity", q.no_casts(f.r(e))):
+                    chk.ok(rid, f, "capacity taken from another table (>= 1 by the same rule)", "%s:%s" % (f.file, f.line), q.no_casts(f.r(e)), nontrivial=False)
                 elif any(l == "this->capacity" and "!" in r for _s, l, r in nstores(f)):
                     chk.ok(rid, f, "capacity |= !capacity", "%s:%s" % (f.file, f.line), "zero is mapped to one")
                 else:
